@@ -136,6 +136,22 @@ fn moving_job(op: Op1, form: Form, len: usize, devs: u32) -> Job {
       if early {
         break;
       }
+      // every delivery of a delaying operator was preceded by a timer request of
+      // exactly the configured duration (the only way a delay shorter than a
+      // virtual tick shows)
+      let cfg: Option<std::time::Duration> = match &op {
+        Op1::Delay(d) if *d > 0 => Some(world::ticks(*d)),
+        Op1::DelayMicros(n) => Some(std::time::Duration::from_micros(*n)),
+        _ => None,
+      };
+      if let Some(cfg) = cfg {
+        let asked = world::timer_log().iter().filter(|r| r.dur == cfg).count();
+        let delayed = got.iter().filter(|n| !matches!(n, Note::Err(_))).count();
+        if asked < delayed {
+          fail(obs, "delay-not-awaited", &hist, format!("{delayed} delayed notifications were delivered but only {asked} timers of {cfg:?} were ever requested"));
+          break;
+        }
+      }
       // order: items in source order, a failing source may cut the items short
       let failing = matches!(exp.last(), Some(Note::Err(_)));
       let ordered_ok = if failing {
@@ -314,6 +330,7 @@ pub fn plan(tier: Tier) -> Plan {
   let moving = vec![
     Op1::ObserveOn,
     Op1::Delay(0),
+    Op1::DelayMicros(900),
     Op1::Delay(1),
     Op1::Delay(2),
     Op1::DelayAt(-2),
